@@ -111,6 +111,8 @@ Meth(verb, path, annot, desc, tags, query, req, reqHeaders, resps, pathdecl) ==
 NoSpec == BodySpec("none", NoBody)
 HeaderBody == Body("obj", "", <<P("h1", "str", "")>>, << >>)
 QueryBody  == Body("obj", "", <<P("q1", "int", "")>>, << >>)
+\* query = "allof": the Query schema inherits from the user type @a
+QueryBodyOf(q) == IF q = "allof" THEN Body("obj", "", <<P("q1", "int", "")>>, <<"@a">>) ELSE QueryBody
 
 GenSpec(s) == UNION {{BodySpec(f, b) : f \in Pick(s, FormsFor(b))} : b \in Pick(s, MsgBodies)}
 
@@ -133,7 +135,7 @@ MethodDeclChoices(p) == IF "methoddecl" \in Features THEN DeclChoices(p) ELSE {<
 GenMethod(s, paths) ==
   {Meth(v, p, a, d, t, q, rq, rh, rs, pd) :
      v \in Pick(s, Verbs), p \in Pick(s, paths), a \in Pick(s, Annots), d \in Pick(s, Descs), t \in Pick(s, TagSeqs),
-     q \in Pick(s, {"", "plain", "example", "noformat"}),
+     q \in Pick(s, {"", "plain", "example", "noformat"} \cup (IF "allofmsg" \in Features THEN {"allof"} ELSE {})),
      rq \in (IF Exhaustive THEN {NoSpec} ELSE {NoSpec} \cup GenSpec(s)), rh \in Pick(s, BOOLEAN),
      rs \in GenResps(s), pd \in {<< >>}}   \* the Path declaration is chosen where the full path is known
 
@@ -226,6 +228,7 @@ BodyRefs(b) == (IF b.k \in {"ref", "arr"} THEN {b.n} ELSE {})
 BodyEnums(b) == {b.props[i].vn : i \in {j \in 1..Len(b.props) : b.props[j].vk = "enum"}}
 
 SpecsOfHttp(m) == (IF m.req.form = "none" THEN {} ELSE {m.req.b}) \cup {m.resps[i].spec.b : i \in 1..Len(m.resps)}
+                  \cup (IF m.query = "allof" THEN {QueryBodyOf(m.query)} ELSE {})
 BodiesOf(e) == IF e.proto = "http" THEN SpecsOfHttp(e.m)
                ELSE {x \in {e.m.params, e.m.result} : x.k # "none"}
 
@@ -386,7 +389,7 @@ InterView(d, e) ==
      query |-> IF e.m.query = "" THEN << >>
                ELSE << [format |-> IF e.m.query = "noformat" THEN "noFormat" ELSE "htmlFormEncoded",
                         example |-> IF e.m.query = "example" THEN "q1=1" ELSE "",
-                        schema |-> SchemaView(tt, QueryBody)] >>,
+                        schema |-> SchemaView(tt, QueryBodyOf(e.m.query))] >>,
      request |-> IF e.m.req.form = "none" THEN << >>
                  ELSE << [format |-> FormatOf(e.m.req.b), schema |-> SchemaView(tt, e.m.req.b),
                           headers |-> IF e.m.reqHeaders THEN << SchemaView(tt, HeaderBody) >> ELSE << >>] >>,
